@@ -129,7 +129,12 @@ func c10Profiles(tier string) []Profile {
 		Rule: "recycling after a mutation that was abandoned half-way: the C07 driver (5 initial stores incl. a re-opened 7-item tree x every single operation x one failing file call at every index, retried or not) followed by a mutation, Flush, full read battery, Reopen, full read battery; only the contents oracles are kept"}
 	var conc []Profile
 	for _, sc := range c05More() {
-		if sc.Name == "S12-snapshot-replaced" || sc.Name == "S5-snapshot" || sc.Name == "S11-slow-get" {
+		if sc.Name == "S12-snapshot-replaced" || sc.Name == "S5-snapshot" || sc.Name == "S11-slow-get" || sc.Name == "S14-snapshot-flush" {
+			conc = append(conc, sc.Profile(1))
+		}
+	}
+	for _, sc := range c05Scenarios() {
+		if sc.Name == "S1-get" {
 			conc = append(conc, sc.Profile(1))
 		}
 	}
